@@ -55,6 +55,18 @@ func c04(id string, op Op, ps []Pos) {
 	tol := slack(e, 0)
 	amt := nd.IntRange("amt", "1", Pow30)
 	a := math.LegacyNewDecFromInt(amt)
+	if op == OpUndelegate || op == OpRedelegate {
+		// region of a known finding: a request within 0.01 SHARES of the whole position is granted as a
+		// full withdrawal (ValidateDelegatedAmount): all shares are removed but only the requested tokens
+		// leave, and the difference - up to 0.01 * share price tokens - passes to the co-delegators. With a
+		// share worth more than 100 tokens that exceeds the property's one-unit tolerance.
+		del, _ := e.K.GetDelegation(e.Ctx, Dels[0], Vals[0], Denoms[0])
+		asset, _ := e.K.GetAssetByDenom(e.Ctx, Denoms[0])
+		req := types.GetDelegationSharesFromTokens(AV(e, Vals[0]), asset, amt)
+		if del.Shares.Sub(req).Abs().LT(types.Rounder) && tol.GT(math.LegacyNewDec(2)) {
+			nd.Tag("epsilon-full-withdrawal-high-price")
+		}
+	}
 	if !RunOp(st, op, id, false) {
 		return
 	}
